@@ -530,11 +530,14 @@ func (ss *ServerSession) startWriter() {
 }
 
 func (ss *ServerSession) destroyWriter() {
-	ss.writer.Close()
-
+	// detach the writer before closing it, in order to
+	// prevent packets from being pushed to a closed writer.
 	ss.writerMutex.Lock()
+	w := ss.writer
 	ss.writer = nil
 	ss.writerMutex.Unlock()
+
+	w.Close()
 }
 
 func (ss *ServerSession) run() {
